@@ -196,10 +196,20 @@ impl Inp {
     }
 }
 
-#[derive(Debug, Clone, Default, PartialEq, Eq)]
+#[derive(Debug, Clone, Default)]
 pub struct InpInternPool {
     store: IndexSet<Inp>,
 }
+
+// InpIds are indices into `store`, so two pools are only interchangeable if they hold the same
+// inputs *in the same order* (IndexSet's own equality ignores the order).
+impl PartialEq for InpInternPool {
+    fn eq(&self, other: &Self) -> bool {
+        self.store.len() == other.store.len() && self.store.iter().eq(other.store.iter())
+    }
+}
+
+impl Eq for InpInternPool {}
 
 impl std::hash::Hash for InpInternPool {
     fn hash<H: std::hash::Hasher>(&self, state: &mut H) {
